@@ -15,13 +15,19 @@ Definition case := (input * obs)%type.
 Definition model_obs (i : input) : obs :=
   let ld := diff (i_base i) (i_left i) in
   let rd := diff (i_base i) (i_right i) in
-  let slow := {| t_rows := merge_by_differ merge_row (i_base i) (i_left i) (i_right i);
-                 t_conf := slow_conflicts merge_row ld rd;
-                 t_stats := stats_slow merge_row ld rd |} in
-  {| o_fast := {| t_rows := merge_by_patches merge_row (i_base i) (i_left i) (i_right i);
-                  t_conf := fast_conflicts merge_row ld rd;
-                  t_stats := stats_fast merge_row ld rd |};
-     o_chk := slow; o_idx := slow |}.
+  match short_circuit (i_base i) (i_left i) (i_right i) with
+  | Some (rows, st) =>
+    let t := {| t_rows := rows; t_conf := []; t_stats := st |} in
+    {| o_fast := t; o_chk := t; o_idx := t |}
+  | None =>
+    let slow := {| t_rows := merge_by_differ merge_row (i_base i) (i_left i) (i_right i);
+                   t_conf := slow_conflicts merge_row ld rd;
+                   t_stats := stats_slow merge_row ld rd |} in
+    {| o_fast := {| t_rows := merge_by_patches merge_row (i_base i) (i_left i) (i_right i);
+                    t_conf := fast_conflicts merge_row ld rd;
+                    t_stats := stats_fast merge_row ld rd |};
+       o_chk := slow; o_idx := slow |}
+  end.
 
 Definition rows_conf_eqb (a b : tobs) : bool :=
   list_eqb (entry_eqb N.eqb) (t_rows a) (t_rows b)
